@@ -821,6 +821,71 @@ theorem isclose_order_semantics {α : Type} [Field α] [LinearOrder α] [IsStric
       (rtol ≤ rtol' → atol ≤ atol' → closeSpec rtol atol x y = true → closeSpec rtol' atol' x y = true) :=
   ⟨closeSpec_iff rtol atol x y, closeSpec_symm_rtol_zero atol x y, closeSpec_mono rtol rtol' atol atol' x y⟩
 
+/-! ### Falsy `alpha`: 0, 0.0, tensor(0.) are values, not "no alpha" -/
+
+/-- Generated from the source: `add`, `sub`, `__radd__`, `__rsub__` ignore `alpha` exactly when `alpha is None` (a truthiness test
+`if not alpha` would also drop `alpha = 0`). -/
+theorem table_alpha_test_is_none :
+    alphaTests.map Prod.fst = ["add", "sub", "__radd__", "__rsub__"] ∧ ∀ e ∈ alphaTests, e.2 = "alpha is None" := by
+  decide +kernel
+
+section AlphaZero
+variable {α : Type} [CommRing α] {n k : Nat}
+
+/-- **`alpha = 0`, operator first** (`torch.add(op, x, alpha=0)`, `torch.sub(op, x, alpha=0)`, `op.add/sub(x, alpha=0)`): the result is
+the first operand `A`, on every operator class, `n × k` operands (the handler theorems hold for **every** `alpha`; this is the
+instance `alpha = 0`, which a truthiness test on `alpha` would get wrong). -/
+theorem alpha_zero_first_arg_generated (c : String) (hc : c ∈ operatorClasses) (e : String × String) (he : e ∈ handledFirst)
+    (b : BinFn) (hb : BinFn.ofName e.1 = some b) (hbb : b = .add ∨ b = .sub) (a1 : Arg) (h1 : a1.plain = true) (A X : Mat α n k) :
+    evalEW genTables e.1 (.op c) a1 A X (some 0) = .ok A := by
+  rw [evalEW_first_alpha genTables c e (table_first_sound c hc e he (by simp [hb])) a1 h1 A X 0 b hb hbb]
+  exact specEW_alpha_zero b hbb A X
+
+/-- **`alpha = 0`, operator second** (`torch.add(x, op, alpha=0)`, `x.sub(op, alpha=0)`, …): the result is the first operand `X`. -/
+theorem alpha_zero_second_arg_generated (c : String) (hc : c ∈ operatorClasses) (e : String × String) (he : e ∈ handledSecond)
+    (hb : BinFn.ofName e.1 = some .add ∨ BinFn.ofName e.1 = some .sub) (a0 : Arg) (h0 : a0.plain = true) (X A : Mat α n k) :
+    evalEW genTables e.1 a0 (.op c) X A (some 0) = .ok X := by
+  obtain ⟨b, hbn, h⟩ := second_arg_alpha_rect_generated c hc e he hb a0 h0 X A 0
+  rw [h]
+  exact specEW_alpha_zero b (by rcases hb with h' | h' <;> rw [hbn] at h' <;> simp at h' <;> simp [h']) X A
+
+/-- **Op ∘ Op with `alpha`** (left operand's class handles the call: same class, unrelated classes): `A ± a·B` for every `a`, in
+particular `A` for `a = 0` (square operands, the existing `evalBinary` layer). -/
+theorem alpha_op_op_left_generated (a b : String) (ha : a ∈ operatorClasses) (hab : a = b ∨ isSubclass classes b a = false)
+    (e : String × String) (he : e ∈ handledFirst) (f : BinFn) (hf : BinFn.ofName e.1 = some f) (hff : f = .add ∨ f = .sub)
+    (X Y : Mat α n n) (al : α) :
+    evalBinary genTables e.1 (.op a) (.op b) X Y (some al) = spec f X Y (some al) := by
+  have h := table_first_sound a ha e he (by simp [hf])
+  simp only [firstEntryOK, Bool.and_eq_true, beq_iff_eq] at h
+  obtain ⟨hl, hm⟩ := h
+  cases hr : resolve genTables.classes a e.2 with
+  | none => simp [hr] at hm
+  | some d =>
+    cases hmm : Meth.ofName e.2 with
+    | none => simp [hr, hf, hmm] at hm
+    | some m =>
+      simp only [hr, hf, hmm, Bool.and_eq_true, Bool.or_eq_true, beq_iff_eq] at hm
+      obtain ⟨_, hal⟩ := hm
+      simp only [evalBinary, dispatch_op_op_left genTables a b e.1 e.2 d (some al) hab hl hr, hmm, Bool.false_eq_true, if_false]
+      have : directAlphaOK (acceptsAlpha genTables d e.2) f m = true := by
+        rcases hal with (hal | hal) | hal
+        · exact hal
+        · rcases hff with h | h <;> simp [h] at hal
+        · rcases hff with h | h <;> simp [h] at hal
+      exact methSem_direct_alpha _ f m this X Y al
+
+end AlphaZero
+
+/-- Why the test must be `alpha is None`: a handler that treats a falsy `alpha` as "no alpha" computes `A − X` for
+`torch.sub(op, x, alpha=0)` where torch gives `A` (1×1 integers). -/
+theorem falsy_alpha_counterexample :
+    ∃ (A X : Mat Int 1 1), methSem (α := Int) true .sub A X (if (0 : Int) = 0 then none else some 0) ≠ spec .sub A X (some 0) := by
+  refine ⟨fun _ _ => 1, fun _ _ => 1, ?_⟩
+  intro h
+  simp only [if_true, methSem, spec, Except.ok.injEq] at h
+  have := congrFun (congrFun h 0) 0
+  simp [madd, smul] at this
+
 /-! ### Session 5 — non-vacuity -/
 
 -- transpose: the positional form binds on both sides; `dim0=` is unknown to the method; `torch.transpose(op, 0, dim1=1)` hits "multiple values"
